@@ -17,6 +17,7 @@ package main
 
 import (
 	"bytes"
+	"encoding/json"
 	"errors"
 	"fmt"
 	"io"
@@ -34,7 +35,9 @@ import (
 	"verifharness/lib"
 )
 
-func init() { register("c12", checkC12) }
+func init() {
+	register("c12", func(c *lib.Ctx) { xfInChild(c, "c12", checkC12) })
+}
 
 const xfKeyF12 = "writeto-concurrent/offset-after-eof"
 
@@ -132,6 +135,11 @@ func xfWriteToPath(cfg xfCfg, S int) string {
 // xfRunSeq runs one sequence on the implementation and its os.File twin. It stops at the first
 // disagreement (after a F12 disagreement the offsets are re-synchronised and the run continues).
 func xfRunSeq(sc xfSeqCase, real *xfReal, hold *xfPeerHold, dir string) (res xfSeqResult) {
+	if hold != nil {
+		xfInflight(hold.slot, sc)
+	} else {
+		xfInflight(0, sc)
+	}
 	initial := xfFilePat(sc.FileLen)
 	var cli *sftp.Client
 	var peer *xfPeer
@@ -766,30 +774,39 @@ func checkC12(c *lib.Ctx) {
 	}
 
 	if c.Replay != "" {
-		var sc xfSeqCase
-		if err := lib.ReadReplay(c.Replay, &sc); err != nil {
+		inputs, err := xfReplayInputs(c.Replay)
+		if err != nil {
 			r.Fail(lib.Failure{Kind: "tie", Key: "replay", What: err.Error()})
 			return
 		}
-		if sc.Race != nil {
-			fs, _ := xfRunRace(sc)
-			report(sc, fs)
-			return
-		}
-		var real *xfReal
-		if sc.Srv.Kind != "peer" {
-			if real, err = xfStartPair(sc.Srv, sc.Cfg, root); err != nil {
-				r.Fail(lib.Failure{Kind: "tie", Key: "setup/pair", What: err.Error()})
-				return
+		for _, raw := range inputs {
+			var sc xfSeqCase
+			if err := json.Unmarshal(raw, &sc); err != nil || (len(sc.Ops) == 0 && sc.Race == nil) {
+				continue
 			}
-			defer real.Shutdown()
+			res.Case(sc.Text(), true)
+			if sc.Race != nil {
+				fs, _ := xfRunRace(sc)
+				report(sc, fs)
+				continue
+			}
+			var real *xfReal
+			if sc.Srv.Kind != "peer" {
+				if real, err = xfStartPair(sc.Srv, sc.Cfg, root); err != nil {
+					r.Fail(lib.Failure{Kind: "tie", Key: "setup/pair", What: err.Error()})
+					return
+				}
+			}
+			sr := xfRunSeq(sc, real, nil, root)
+			if real != nil {
+				real.Shutdown()
+			}
+			if sr.SetupErr != nil {
+				r.Fail(lib.Failure{Kind: "tie", Key: "setup", What: sr.SetupErr.Error(), Input: sc})
+			}
+			report(sc, sr.Fails)
+			addModel(sc, sr)
 		}
-		sr := xfRunSeq(sc, real, nil, root)
-		if sr.SetupErr != nil {
-			r.Fail(lib.Failure{Kind: "tie", Key: "setup", What: sr.SetupErr.Error(), Input: sc})
-		}
-		report(sc, sr.Fails)
-		addModel(sc, sr)
 		mc.compare(c, "c12")
 		return
 	}
@@ -866,7 +883,7 @@ func checkC12(c *lib.Ctx) {
 		perJob, seqLen = 30, 40
 	}
 	var sampleN int32
-	xfParallel(len(jobs), runtime.GOMAXPROCS(0), func(ji int) {
+	xfParallel(len(jobs), runtime.GOMAXPROCS(0), func(w, ji int) {
 		job := jobs[ji]
 		rng := rand.New(rand.NewSource(job.Seed))
 		dir := filepath.Join(root, fmt.Sprintf("j%d", job.Idx))
@@ -876,7 +893,7 @@ func checkC12(c *lib.Ctx) {
 		}
 		defer os.RemoveAll(dir)
 		var real *xfReal
-		hold := &xfPeerHold{}
+		hold := &xfPeerHold{slot: w}
 		defer hold.Close()
 		start := func() bool {
 			if job.Spec.Kind == "peer" {
@@ -1010,8 +1027,9 @@ func checkC12(c *lib.Ctx) {
 		rj = append(rj, raceJob{sc})
 	}
 	var before, closedCalls int64
-	xfParallel(len(rj), runtime.GOMAXPROCS(0)/2, func(i int) {
+	xfParallel(len(rj), runtime.GOMAXPROCS(0)/2, func(w, i int) {
 		sc := rj[i].sc
+		xfInflight(w, sc)
 		fs, st := xfRunRace(sc)
 		res.Case(sc.Text()+fmt.Sprint(*sc.Race), true)
 		res.Hist("race|hammers="+fmt.Sprint(sc.Race.Hammers), fmt.Sprintf("race|window=%d", sc.Window))
